@@ -83,6 +83,8 @@ def check(ctx: Ctx) -> None:
                 ctx.violation('C16.c', f.qualname, 'stores self.%s: the theoretical curve becomes a function of the call history (e.g. a memo '
                               'keyed on the identity of the SNR array returns stale values after the array is refilled in place)' % a,
                               f.path, line, operand=a)
+    from ..idioms import check_none_tests
+    check_none_tests(ctx, 'C16.f', [FUND], floor=1)            # cheap definite rule first
     ctx.rule('C16.a', 'PER/SE/BER/SER compositions equal the specification terms', floor=12)
     SNR, L = T.Term.sym('SNR'), T.Term.sym('packet_length')
     B = _self_atom('calcTheoreticalBER', SNR)
